@@ -15,10 +15,11 @@ Emit(S) == \A s \in S : SigLine(inst, l, s)
 Has(r, f) == f \in DOMAIN r
 
 TInit == /\ l = 1 /\ inst = 0 /\ initLen = 0
-         /\ FInitState([timescale |-> 90000, fragms |-> 2000, vc |-> "h264", judge_config |-> FALSE])
+         /\ FInitState([timescale |-> 90000, fragms |-> 2000, vc |-> "h264", judge_config |-> FALSE, w32 |-> 1073741824, i32 |-> 1073741824])
 
 IsEv(e) == l <= Len(Rec) /\ Rec[l].ev = e
 Crashed(e) == e.var \in {"panic", "hang"}
+Judged == "nojudge" \notin DOMAIN fcfg
 TotalSigs(op, e) ==
     IF e.var = "panic" THEN {FSig("C12", "Total", op, ToString(<< "panic", e.msg >>))}
     ELSE IF e.var = "hang" THEN {FSig("C12", "Terminates", op, "hang")} ELSE {}
@@ -33,39 +34,40 @@ TNew == /\ IsEv("new") /\ l' = l + 1 /\ inst' = Rec[l].i /\ initLen' = 0
 TWrite == /\ IsEv("f_write") /\ l' = l + 1 /\ UNCHANGED << inst, initLen >>
           /\ LET e == Rec[l] IN
              /\ Emit(TotalSigs("f_write", e)
-                     \cup (IF ~Crashed(e) /\ e.ok # WriteMustSucceed(e.dts)
+                     \cup (IF Judged /\ ~Crashed(e) /\ e.ok # WriteMustSucceed(e.dts)
                            THEN {FSig("C10", "RejectIff", "write_video", IF e.ok THEN "accepted-lower-dts" ELSE "rejected-legal")} ELSE {}))
-             /\ DoFWrite(e.pts, e.dts, e.data, e.sync, e.ok)
+             /\ IF Judged THEN DoFWrite(e.pts, e.dts, e.data, e.sync, e.ok) ELSE UNCHANGED fvars
 
 SegSigs(S) ==
-    C10Seg(S, pending) \cup C11Seg(S, pending)
+    C10Seg(S, pending) \cup C11Seg(S, pending) \cup C16Seg(S, pending)
     \cup (IF fcfg.facets.tree /\ Has(S, "tree") THEN SegmentSigs(S) ELSE {})
     \cup (IF fcfg.facets.raw /\ Has(S, "raw") THEN RawSigsSegment(S, fcfg, pending) ELSE {})
 
 TFlush == /\ IsEv("f_flush") /\ l' = l + 1 /\ UNCHANGED << inst, initLen >>
           /\ LET e == Rec[l] IN
              /\ Emit(TotalSigs("f_flush", e)
-                     \cup (IF Crashed(e) THEN {}
+                     \cup (IF Crashed(e) \/ ~Judged THEN {}
                            ELSE IF e.some # (pending # << >>)
                                 THEN {FSig("C10", "EmptyFlush", "flush_segment", IF e.some THEN "segment-from-nothing" ELSE "nothing-from-samples")}
                            ELSE IF e.some THEN SegSigs(e.seg) ELSE {}))
-             /\ IF e.some /\ ~Crashed(e) /\ Has(e, "seg")
+             /\ IF ~Judged THEN UNCHANGED fvars
+                ELSE IF e.some /\ ~Crashed(e) /\ Has(e, "seg")
                 THEN DoFFlush(TRUE, e.seg.tfdt, SumSeq([i \in 1..Len(e.seg.s) |-> IF "d" \in DOMAIN e.seg.s[i] THEN e.seg.s[i].d ELSE 0]))
                 ELSE DoFFlush(FALSE, 0, 0)
 
 TQuery == /\ IsEv("f_query") /\ l' = l + 1 /\ UNCHANGED << inst, initLen >>
           /\ LET e == Rec[l] IN
              /\ Emit(TotalSigs(e.op, e)
-                     \cup (IF ~Crashed(e) /\ fcfg.unit1 /\ e.op = "ready" /\ e.val # Ready
+                     \cup (IF Judged /\ ~Crashed(e) /\ fcfg.unit1 /\ e.op = "ready" /\ e.val # Ready
                            THEN {FSig("C10", "Readiness", "ready_to_flush", IF e.val THEN "early" ELSE "late")} ELSE {})
-                     \cup (IF ~Crashed(e) /\ fcfg.unit1 /\ e.op = "dur" /\ e.val # SpanMs
+                     \cup (IF Judged /\ ~Crashed(e) /\ fcfg.unit1 /\ e.op = "dur" /\ e.val # SpanMs
                            THEN {FSig("C10", "Readiness", "current_fragment_duration_ms", "value")} ELSE {}))
              /\ DoFQuery
 
 TFInit == /\ IsEv("f_init") /\ l' = l + 1 /\ inst' = inst
           /\ LET e == Rec[l] IN
              /\ Emit(TotalSigs("f_init", e)
-                     \cup (IF Crashed(e) THEN {}
+                     \cup (IF Crashed(e) \/ ~Judged THEN {}
                            ELSE (IF initSeen /\ ~e.same_as_first THEN {FSig("C11", "InitStable", "init_segment", "changed")} ELSE {})
                                 \cup (IF Has(e, "obs") /\ fcfg.facets.tree THEN InitSigs(e.obs) ELSE {})
                                 \cup (IF Has(e, "obs") /\ fcfg.facets.raw THEN RawSigsInit(e.obs, fcfg) ELSE {})))
